@@ -265,6 +265,10 @@ RunResult runDaemon(const Json::Value& sc, const DaemonHooks* hooks) {
     } else {
       bool ok = true;
       for (const auto& d : sc["dropins"]) {
+        if (d.get("remove", false).asBool()) {
+          engine->removeDropInConfig(d["tag"].asString());
+          continue;
+        }
         auto dir = parser.parse(jstr(d["config"]));
         auto unit = Oomd::Config2::compileDropIn(*ir, *dir, pcc);
         if (!unit || !engine->addDropInConfig(d["tag"].asString(), std::move(*unit))) {
